@@ -55,7 +55,8 @@ TRUSTED = ['CPython 3.12 str/list subscripting as modelled in coq/lib/C04_PySlic
            'FeatureList.get (sugar/core/fts.py, outside the anchored file) is modelled as ft_get for str arguments only']
 ASSUMPTIONS = ['Python str restricted to ASCII code points (str.upper modelled on ASCII); lengths below 2^63',
                'metadata other than the id is not modelled (slices share the parent meta object)',
-               'gap-aware slicing claimed equal to the degapped slice for contiguous slices (step None or 1) only; other steps are modelled as the code is']
+               'gap-aware slicing claimed equal to the degapped slice for contiguous slices (step None or 1) and, proved in addition, for step -1 with bounds >= -residues; other steps are modelled as the code is',
+               'the namespace exposes exactly 29 names (seq.py:50-170); partition, rpartition, join, zfill, expandtabs, title, capitalize, casefold, isdigit, format ... are NOT exposed (AttributeError) and therefore outside the property']
 
 MODELLED_FUNCS = {'sugar/core/seq.py': [
     '_Sliceable_GetItem.__getitem__',
@@ -2718,8 +2719,11 @@ LEVEL_NOTE = ('Trusted: Coq kernel/vm_compute, the correspondence harness, CPyth
               'seq.py functions in MODELLED_FUNCS; str restricted to ASCII; metadata reduced to the id; features reduced to (type, start, '
               'stop) of one forward location (strands, several locations: C06). Domain restrictions: the PROPERTY claim for gap-aware slicing is contiguous '
               'slices only; gap-aware slices with other steps are inside the correspondence as the code is (columns between the '
-              'adjusted bounds), not claimed to equal the degapped slice; '
-              'seq + x only for x without lower case (the constructor upper-cases, += does not); slices of sequences holding lower '
+              'adjusted bounds): equal to the degapped slice is PROVED for step -1 (bounds None or >= -residues) and for gap-free '
+              'sequences, REFUTED in general (gap_step_refuted); '
+              'the single-call ops seq + x / x + seq only for x without lower case, while the history and object-store streams take '
+              'any x and expect the whole result upper-cased (the constructor upper-cases, += does not); basket-level histories '
+              '(bhist) still write upper case only; slices of sequences holding lower '
               'case come back upper-cased (stated, and part of the object-store stream); GC content counts upper-case G/C/A/T/U only (that is what str.count gives). '
               'Lines of modelled functions not reached because they belong to other properties: seq.py:227 (mapping '
               'constructor, C14), 464 (indexing with a Location object, C06), 488-495 (update_fts, C06).')
